@@ -90,6 +90,10 @@ def _tail_returns_only(stmts: List[ast.stmt]) -> bool:
                     return _tail_returns_only(stmts[i + 1:])
                 if _has_return(s):
                     return False
+        elif isinstance(s, (ast.With, ast.AsyncWith)) and last:
+            # a `with` block that ends the body is tail position too: its `return e` becomes `target = e` inside the block
+            if not _tail_returns_only(s.body):
+                return False
         elif _has_return(s):
             return False
     return True
@@ -110,6 +114,8 @@ def _always_returns(stmts: List[ast.stmt]) -> bool:
         return True
     if isinstance(s, ast.If):
         return _always_returns(s.body) and _always_returns(s.orelse)
+    if isinstance(s, (ast.With, ast.AsyncWith)):
+        return _always_returns(s.body)
     return False
 
 
@@ -251,6 +257,11 @@ def _convert_returns(stmts: List[ast.stmt], target: Optional[ast.AST]) -> List[a
                 new.orelse = _convert_returns(stmts[i + 1:], target)
                 out.append(new)
                 return out
+        if isinstance(s, (ast.With, ast.AsyncWith)) and last and _has_return(s):
+            new = copy.copy(s)
+            new.body = _convert_returns(s.body, target) or [ast.copy_location(ast.Pass(), s)]
+            out.append(new)
+            return out
         out.append(s)
     return out
 
